@@ -1,4 +1,5 @@
 import ClusterVerif.Lemmas.C13Log
+import ClusterVerif.Lemmas.C13Deliv
 /-!
 C13 — property theorems about the bookkeeping model (Model/C13.lean) of the adders' DAG
 services. They hold for every block stream, every allocation script, every script of
@@ -36,20 +37,51 @@ def bookkeeping_full : Prop :=
   ∀ (c : Cfg) (stream : List Blk) (fin : Option Nat) (cl rb rp ri : Bool), wf c stream = true →
     (bookkeeping c ((run c stream fin).view stream cl rb rp ri)).all (·.2) = true
 
+theorem ok_finalized (c : Cfg) (stream : List Blk) (fin : Option Nat) (hok : (run c stream fin).status = .ok) :
+    (run c stream fin).finalized = true := by
+  unfold run at hok ⊢
+  split_ifs at hok ⊢
+  · unfold runShard at hok ⊢
+    rcases h : shAddAll c ShSt.init stream 0 [] with ⟨s, pan, failed⟩
+    rw [h] at hok
+    cases pan <;> cases fin <;> simp_all
+  · unfold runSingle at hok ⊢
+    rcases h : singleAddAll c SSt.init stream 0 [] with ⟨s, failed⟩
+    rw [h] at hok
+    cases fin <;> simp_all
+
+/-- On success the destination daemons hold every block the adder was given: each block of the stream was
+    accepted by at least one destination (for callers that stop at the first failed `Add`). -/
+theorem blocks_delivered (c : Cfg) (stream : List Blk) (fin : Option Nat) (hstop : CallerStops c stream fin)
+    (hok : (run c stream fin).status = .ok) : allDelivered (run c stream fin).log stream = true := by
+  have hfin := ok_finalized c stream fin hok
+  have hnf := hstop hfin
+  unfold run at hfin hnf ⊢
+  split_ifs at hfin hnf ⊢
+  · exact runShard_delivered c stream fin hfin hnf
+  · exact runSingle_delivered c stream fin hnf
+
 /-- ... proved for callers that stop at the first failed `Add` -/
 theorem bookkeeping_partial (c : Cfg) (stream : List Blk) (fin : Option Nat) (cl rb rp ri : Bool)
     (hwf : wf c stream = true) (hstop : CallerStops c stream fin) :
     (bookkeeping c ((run c stream fin).view stream cl rb rp ri)).all (·.2) = true := by
   obtain ⟨hnd, hcons⟩ := wf_parts hwf
-  unfold CallerStops run at hstop
-  unfold run
-  cases hs : c.shard with
-  | true =>
-    simp only [hs, if_true] at hstop ⊢
-    exact sharded_book c stream _ cl rb rp ri hs hcons (runShard_ok c stream fin hnd hstop)
-  | false =>
-    simp only [hs] at hstop ⊢
-    exact single_book c stream fin cl rb rp ri hs hnd
+  have hdel : (deliveryClauses ((run c stream fin).view stream cl rb rp ri)).all (·.2) = true := by
+    by_cases hok : (run c stream fin).status = .ok
+    · simp [deliveryClauses, Out.view, hok, blocks_delivered c stream fin hstop hok]
+    · have : ((run c stream fin).status == Status.ok) = false := by simpa using hok
+      simp [deliveryClauses, Out.view, this]
+  have hpins : (pinClauses c ((run c stream fin).view stream cl rb rp ri)).all (·.2) = true := by
+    unfold CallerStops run at hstop
+    unfold run
+    cases hs : c.shard with
+    | true =>
+      simp only [hs, if_true] at hstop ⊢
+      exact sharded_book c stream _ cl rb rp ri hs hcons (runShard_ok c stream fin hnd hstop)
+    | false =>
+      simp only [hs] at hstop ⊢
+      exact single_book c stream fin cl rb rp ri hs hnd
+  simp only [bookkeeping, List.all_append, hdel, hpins, Bool.and_self]
 
 def witnessCfg : Cfg :=
   { shard := true, «local» := false,
